@@ -20,6 +20,10 @@ def extra(led, tier, seed):
     led.extend(o for o in predict_glue.obligations() if "check_is_fitted" in o.name)
     led.extend(sparse_sel.check_groups_exhaustive(4 if tier == "thorough" else 3))
     led.extend(mlcl_valid.malformed())
+    # add_mlcl_constraint is a validated function too: an inconsistent combination (a cannot-link pair inside a must-link
+    # component) is rejected, every consistent one accepted (ghost typing for all inputs + exhaustive small id universes)
+    led.extend(mlcl_valid.ghost_typing())
+    led.extend(mlcl_valid.exhaustive(tier))
     led.extend(o for o in tree_print.rejection_table() if "unfitted" in o.name or "refused" in o.name)
     led.assume("A4", "A5: sklearn Interval / StrOptions / _validate_params implement the declared constraints; check_array / validate_data reject non-finite, non-numeric, "
                "non-2-D, empty and too-small data (relied upon for the malformed-data rows, labelled B)",
